@@ -44,7 +44,12 @@ def step (line : String) : String :=
         | none => s!"panic\tspec={spec}\tkf=opt-vdt"
         | some enc =>
           let data := enc ++ suffix
-          let model := s!"{hex enc} | {showDecode t (some v) data (C12.decodeA t data)}"
+          -- when Marshal's bytes are not the canonical ones the harness also decodes the canonical ones
+          let canon := if enc = specEnc then ""
+            else
+              let cd := specEnc ++ suffix
+              s!" canon={hex specEnc} -> {showDecode t none cd (C12.decodeA t cd)}"
+          let model := s!"{hex enc} | {showDecode t (some v) data (C12.decodeA t data)}{canon}"
           if model = spec then model
           else
             let kf := if enc ≠ specEnc then "opt-vdt" else if C12.hasMidUint t v then "uint-5to7" else "none"
